@@ -165,7 +165,7 @@ class ObjectiveHistory:
     def _fresh_value(self, x: np.ndarray) -> float:
         g = gen_dc.build_objective(self.init)
         if self.mode == "model":
-            g.set_model(gen_dc.build_surrogate(self.model_spec))
+            g.set_model(gen_dc.build_surrogate(self.model_spec, g))
         with np.errstate(all="ignore"):
             return g.evaluate(x.copy())
 
@@ -202,7 +202,7 @@ class ObjectiveHistory:
             self._sut("set_raw()", self.f.set_raw)
             self.mode = "raw"
         elif kind == "set_model":
-            model = gen_dc.build_surrogate(op["model"])
+            model = gen_dc.build_surrogate(op["model"], self.f)
             try:
                 self._sut("set_model()", self.f.set_model, model,
                           allowed=(ValueError,))
